@@ -10,6 +10,7 @@ mod gen;
 mod keys;
 mod mk;
 mod model;
+mod pemstrict;
 mod props;
 mod runner;
 mod spec;
